@@ -71,7 +71,7 @@ struct sock_rec {
   error_code broken;            // set once an operation failed with a transport error: the connection is gone, later I/O fails too
   asio::any_completion_handler<void(error_code)> h_connect;
   asio::any_completion_handler<void(error_code, std::size_t)> h_read; char* rbuf = nullptr; std::size_t rcap = 0;
-  asio::any_completion_handler<void(error_code, std::size_t)> h_write; std::string wdata; int writes = 0;
+  asio::any_completion_handler<void(error_code, std::size_t)> h_write; std::string wdata; int writes = 0; bool delivered_early = false;
 };
 struct resolver_rec { asio::any_completion_handler<void(error_code, int)> h; std::string host, port; int calls = 0; };
 
